@@ -64,22 +64,54 @@ theorem disconnect_returns_at_once (s : St) (id : Nat) :
 
 /-! ### 8. the end of the connection releases every blocked call -/
 
-/-- the three ways a live connection is ended from outside a call: the peer closes, `Close()` locally,
-    a packet that the parsers reject -/
-def IsConnEnd (e : Ev) : Prop := e = .peerClose ∨ e = .localClose ∨ e = .inb .malformed
+/-- the ways a live connection is ended from outside a call: the peer closes, `Close()` locally,
+    a packet that the parsers reject, and an inbound application message whose acknowledgement the reader
+    cannot write (`ackFails s p`: an inbound PUBLISH with QoS ≠ 0, or a PUBREL of a remembered id, while the
+    transport is closed or refuses writes — serve.go `return wrapError(err, "sending PUBACK")`).
+    The last one depends on the state in which the event arrives, hence the parameter `s`. -/
+def IsConnEnd (s : St) (e : Ev) : Prop :=
+  e = .peerClose ∨ e = .localClose ∨ e = .inb .malformed ∨ ∃ p, e = .inb p ∧ ackFails s p = true
 
-theorem connEnd_step (s : St) (e : Ev) (he : IsConnEnd e) (hi : s.inited = true) (hd : s.doneClosed = false) :
-    ∃ er, step s e = endNow s er := by
-  rcases he with rfl | rfl | rfl
-  · exact ⟨.eof, by simp [step, hi, readerEnds_of_not_done _ _ hd]⟩
-  · exact ⟨.other, by simp [step, hi, readerEnds_of_not_done _ _ hd]⟩
-  · exact ⟨.invalidPacket, by
-      simp only [step]; rw [inbound_live s _ hi hd]; exact readerEnds_of_not_done _ _ hd⟩
+/-- `ackFails`, spelled out -/
+theorem ackFails_iff (s : St) (p : In) : ackFails s p = true ↔
+    canWrite s = false ∧
+      ((∃ q id, p = .publish q id ∧ q ≠ 0) ∨ (∃ id, p = .pubrel id ∧ id ∈ s.inQ2)) := by
+  simp only [ackFails, Bool.and_eq_true, Bool.not_eq_true', needsAck_iff]
+  exact And.comm
+
+/-- an inbound QoS 1 / QoS 2 PUBLISH while the client cannot write ends the connection -/
+theorem isConnEnd_publish (s : St) (q id : Nat) (hq : q = 1 ∨ q = 2) (hw : canWrite s = false) :
+    IsConnEnd s (.inb (.publish q id)) :=
+  Or.inr (Or.inr (Or.inr ⟨_, rfl, (ackFails_iff s _).2 ⟨hw, Or.inl ⟨q, id, rfl, by omega⟩⟩⟩))
+
+/-- an inbound PUBREL of a remembered id while the client cannot write ends the connection -/
+theorem isConnEnd_pubrel (s : St) (id : Nat) (hm : id ∈ s.inQ2) (hw : canWrite s = false) :
+    IsConnEnd s (.inb (.pubrel id)) :=
+  Or.inr (Or.inr (Or.inr ⟨_, rfl, (ackFails_iff s _).2 ⟨hw, Or.inr ⟨id, rfl, hm⟩⟩⟩))
+
+/-- a connection end is the reader finishing: `endNow` (transport closed, error stored once, `Closed` reported
+    unless Disconnect was called, Done() closed, every blocked call released); a PUBREL has forgotten its id by
+    then, nothing else differs from `s` -/
+theorem connEnd_step (s : St) (e : Ev) (he : IsConnEnd s e) (hi : s.inited = true) (hd : s.doneClosed = false) :
+    ∃ er q, step s e = endNow { s with inQ2 := q } er := by
+  rcases he with rfl | rfl | rfl | ⟨p, rfl, hf⟩
+  · refine ⟨.eof, s.inQ2, ?_⟩
+    show step s .peerClose = endNow s .eof
+    simp [step, hi, readerEnds_of_not_done _ _ hd]
+  · refine ⟨.other, s.inQ2, ?_⟩
+    show step s .localClose = endNow s .other
+    simp [step, hi, readerEnds_of_not_done _ _ hd]
+  · refine ⟨.invalidPacket, s.inQ2, ?_⟩
+    show step s (.inb .malformed) = endNow s .invalidPacket
+    simp only [step]; rw [inbound_live s _ hi hd]; exact readerEnds_of_not_done _ _ hd
+  · refine ⟨.other, (appDropped s p).inQ2, ?_⟩
+    simp only [step]
+    rw [inbound_ack_fails s p hi hd hf, ← appDropped_eq]
 
 /-- When the connection ends (peer close / local Close / protocol error) on a connected client:
     Done() is closed, no call is blocked any more, every call that was blocked has returned
     ErrClosedTransport, and calls that had already returned are unchanged. -/
-theorem connection_end_releases_all (s : St) (e : Ev) (he : IsConnEnd e)
+theorem connection_end_releases_all (s : St) (e : Ev) (he : IsConnEnd s e)
     (hi : s.inited = true) (hd : s.doneClosed = false) :
     (step s e).doneClosed = true ∧
     (step s e).transportOpen = false ∧
@@ -88,13 +120,13 @@ theorem connection_end_releases_all (s : St) (e : Ev) (he : IsConnEnd e)
         ∃ r, (step s e).calls[j]? = some { c with phase := .returned (.closed r) }) ∧
     (∀ (j : Nat) (c : Call), s.calls[j]? = some c → blocked c = false → (step s e).calls[j]? = some c) ∧
     (step s e).calls.length = s.calls.length := by
-  obtain ⟨er, h⟩ := connEnd_step s e he hi hd
+  obtain ⟨er, q, h⟩ := connEnd_step s e he hi hd
   rw [h]
-  refine ⟨by simp, by simp, endNow_no_blocked s er, ?_, ?_, by simp⟩
+  refine ⟨by simp, by simp, endNow_no_blocked _ er, ?_, ?_, by simp⟩
   · intro j c hc hb
     obtain ⟨r, hr⟩ := release_phase_of_blocked c hb
     refine ⟨r, ?_⟩
-    rw [endNow_getElem?_some er hc]
+    rw [endNow_getElem?_some (s := { s with inQ2 := q }) er hc]
     congr 1
     cases c with | mk k id ph =>
     have h1 := release_kind ⟨k, id, ph⟩
@@ -105,16 +137,16 @@ theorem connection_end_releases_all (s : St) (e : Ev) (he : IsConnEnd e)
     subst h1 h2 hr
     rfl
   · intro j c hc hb
-    rw [endNow_getElem?_some er hc, release_of_returned c hb]
+    rw [endNow_getElem?_some (s := { s with inQ2 := q }) er hc, release_of_returned c hb]
 
 /-- the retry flag of ErrClosedTransport is, like for the context error, false for Connect / Ping and
     true for the id-carrying requests -/
-theorem connection_end_result (s : St) (e : Ev) (he : IsConnEnd e)
+theorem connection_end_result (s : St) (e : Ev) (he : IsConnEnd s e)
     (hi : s.inited = true) (hd : s.doneClosed = false) (j : Nat) (c : Call)
     (hc : s.calls[j]? = some c) (hb : blocked c = true) :
     (step s e).calls[j]? = some { c with phase := .returned (.closed (ctxRetry c.phase)) } := by
-  obtain ⟨er, h⟩ := connEnd_step s e he hi hd
-  rw [h, endNow_getElem?_some er hc]
+  obtain ⟨er, q, h⟩ := connEnd_step s e he hi hd
+  rw [h, endNow_getElem?_some (s := { s with inQ2 := q }) er hc]
   congr 1
   cases c with | mk k id ph =>
   cases ph <;> first | rfl | (simp [blocked] at hb)
@@ -158,7 +190,7 @@ theorem call_after_done_returns_at_once (evs : List Ev) (hd : (run evs).doneClos
 theorem no_stuck_call (evs : List Ev) (i : Nat) (c : Call)
     (hc : (run evs).calls[i]? = some c) (hb : blocked c = true) :
     (run (evs ++ [.cancel i])).calls[i]? = some { c with phase := .returned (.ctxErr (ctxRetry c.phase)) } ∧
-    (∀ e, IsConnEnd e →
+    (∀ e, IsConnEnd (run evs) e →
       (run (evs ++ [e])).calls[i]? = some { c with phase := .returned (.closed (ctxRetry c.phase)) } ∧
       (run (evs ++ [e])).doneClosed = true) := by
   obtain ⟨hi, hd⟩ := blocked_implies_live evs i c hc hb
@@ -175,6 +207,9 @@ theorem no_stuck_call (evs : List Ev) (i : Nat) (c : Call)
       peerClose, localClose, inb malformed      : Connect has been called (`s.inited`)
       inb (suback id codes)                     : `s.inited` and the SUBACK finds a Subscribe waiting under `id`
                                                   with a different number of filters (`subAckMismatch`)
+      inb (publish q id), inb (pubrel id)       : `s.inited` and the reader has to write an acknowledgement
+                                                  (QoS ≠ 0, resp. `id` remembered in `inQ2`) but the client cannot
+                                                  write (`ackFails`)
       call disconnect _                         : `s.inited` and the transport accepts the DISCONNECT write
       anything else                             : never
 -/
@@ -189,11 +224,13 @@ theorem endsConn_iff (s : St) (e : Ev) : endsConn s e = true ↔
     s.inited = true ∧
       (e = .peerClose ∨ e = .localClose ∨ e = .inb .malformed ∨
        (∃ id codes, e = .inb (.suback id codes) ∧ subAckMismatch s (.suback id codes) = true) ∨
+       (∃ q id, e = .inb (.publish q id) ∧ q ≠ 0 ∧ canWrite s = false) ∨
+       (∃ id, e = .inb (.pubrel id) ∧ id ∈ s.inQ2 ∧ canWrite s = false) ∨
        (∃ id, e = .call .disconnect id ∧ canWrite s = true)) := by
   cases e with
   | call k id => cases k <;> simp [endsConn]
   | inb p =>
-    cases p <;> simp [endsConn]
+    cases p <;> simp [endsConn, ackFails, needsAck]
     intro _
     constructor
     · intro h; exact ⟨_, _, ⟨rfl, rfl⟩, h⟩
@@ -202,6 +239,41 @@ theorem endsConn_iff (s : St) (e : Ev) : endsConn s e = true ↔
   | peerClose => simp [endsConn]
   | localClose => simp [endsConn]
   | writeFail on => simp [endsConn]
+
+/-- `endsConn`, in terms of `IsConnEnd`: Connect has been called, and the event is a connection end from
+    outside a call (peer close / local Close / malformed packet / an acknowledgement of an inbound application
+    message that cannot be written), a SUBACK with the wrong number of return codes, or a Disconnect whose
+    packet can be written. -/
+theorem endsConn_iff_isConnEnd (s : St) (e : Ev) : endsConn s e = true ↔
+    s.inited = true ∧
+      (IsConnEnd s e ∨
+       (∃ id codes, e = .inb (.suback id codes) ∧ subAckMismatch s (.suback id codes) = true) ∨
+       (∃ id, e = .call .disconnect id ∧ canWrite s = true)) := by
+  rw [endsConn_iff]
+  refine and_congr_right (fun _ => ?_)
+  constructor
+  · rintro (h | h | h | h | ⟨q, id, rfl, hq, hw⟩ | ⟨id, rfl, hm, hw⟩ | h)
+    · exact Or.inl (Or.inl h)
+    · exact Or.inl (Or.inr (Or.inl h))
+    · exact Or.inl (Or.inr (Or.inr (Or.inl h)))
+    · exact Or.inr (Or.inl h)
+    · exact Or.inl (Or.inr (Or.inr (Or.inr ⟨_, rfl, (ackFails_iff s _).2 ⟨hw, Or.inl ⟨q, id, rfl, hq⟩⟩⟩)))
+    · exact Or.inl (isConnEnd_pubrel s id hm hw)
+    · exact Or.inr (Or.inr h)
+  · rintro ((h | h | h | ⟨p, rfl, hf⟩) | h | h)
+    · exact Or.inl h
+    · exact Or.inr (Or.inl h)
+    · exact Or.inr (Or.inr (Or.inl h))
+    · obtain ⟨hw, ⟨q, id, rfl, hq⟩ | ⟨id, rfl, hm⟩⟩ := (ackFails_iff s p).1 hf
+      · exact Or.inr (Or.inr (Or.inr (Or.inr (Or.inl ⟨q, id, rfl, hq, hw⟩))))
+      · exact Or.inr (Or.inr (Or.inr (Or.inr (Or.inr (Or.inl ⟨id, rfl, hm, hw⟩)))))
+    · exact Or.inr (Or.inr (Or.inr (Or.inl h)))
+    · exact Or.inr (Or.inr (Or.inr (Or.inr (Or.inr (Or.inr h)))))
+
+/-- every connection end from outside a call is a step after which Done() is closed -/
+theorem isConnEnd_done (s : St) (e : Ev) (he : IsConnEnd s e) (hi : s.inited = true) :
+    (step s e).doneClosed = true :=
+  (done_step_iff s e).2 (Or.inr ((endsConn_iff_isConnEnd s e).2 ⟨hi, Or.inl he⟩))
 
 /-- some connection-ending step happened along the run (folded from the state `s`) -/
 def endedByFrom (s : St) : List Ev → Bool
@@ -220,7 +292,8 @@ theorem done_foldl (evs : List Ev) (s : St) :
     rw [ih, done_step (step_rel s e), Bool.or_assoc]
 
 /-- Done() is closed iff a connection-ending step (peer close / local Close / malformed packet / SUBACK count
-    mismatch / successful Disconnect) happened after Connect was called. -/
+    mismatch / failed acknowledgement write for an inbound PUBLISH or PUBREL / successful Disconnect) happened
+    after Connect was called. -/
 theorem done_iff_reader_finished (evs : List Ev) : (run evs).doneClosed = true ↔ endedBy evs = true := by
   unfold run endedBy
   rw [done_foldl]; simp
@@ -294,6 +367,23 @@ example : (run (busy ++ [.peerClose])).doneClosed = true ∧ (run busy).doneClos
 -- EOF while Connect itself is waiting for CONNACK
 example : phases [.call .connect 0, .peerClose] = [.returned (.closed false)] := by decide
 
+-- the acknowledgement of an inbound PUBLISH (QoS 1, QoS 2) or of a remembered PUBREL cannot be written:
+-- the reader ends and all six blocked calls are released, exactly as on EOF
+example : phases (busy ++ [.writeFail true, .inb (.publish 1 9)]) = phases (busy ++ [.peerClose]) := by decide
+example : phases (busy ++ [.writeFail true, .inb (.publish 2 9)]) = phases (busy ++ [.peerClose]) := by decide
+example : phases (busy ++ [.inb (.publish 2 9), .writeFail true, .inb (.pubrel 9)]) = phases (busy ++ [.peerClose]) := by
+  decide
+example : (run (busy ++ [.writeFail true, .inb (.publish 1 9)])).doneClosed = true := by decide
+example : IsConnEnd (run (busy ++ [.writeFail true])) (.inb (.publish 1 9)) :=
+  isConnEnd_publish _ 1 9 (Or.inl rfl) (by decide)
+example : IsConnEnd (run (busy ++ [.inb (.publish 2 9), .writeFail true])) (.inb (.pubrel 9)) :=
+  isConnEnd_pubrel _ 9 (by decide) (by decide)
+-- ... but a QoS 0 PUBLISH, or a PUBREL nobody remembers, needs no acknowledgement and ends nothing
+example : phases (busy ++ [.writeFail true, .inb (.publish 0 9), .inb (.pubrel 9)]) = phases busy := by decide
+-- ... and while the transport accepts writes application traffic leaves every blocked call alone
+example : phases (busy ++ [.inb (.publish 1 9), .inb (.publish 2 9), .inb (.pubrel 9), .inb (.publish 0 1)]) =
+    phases busy := by decide
+
 -- a call after the end returns at once
 example : phases (busy ++ [.peerClose, .call .pub1 9]) = phases (busy ++ [.peerClose]) ++ [.returned (.writeErr true)] := by
   decide
@@ -303,5 +393,10 @@ example : endedBy busy = false := by decide
 example : endedBy (busy ++ [.call .disconnect 0]) = true := by decide
 example : endedBy [.peerClose, .localClose] = false := by decide   -- before Connect nothing ends
 example : endedBy [.call .connect 0, .inb (.connack false 0), .call (.sub 2) 4, .inb (.suback 4 [0])] = true := by decide
+example : endedBy (busy ++ [.writeFail true, .inb (.publish 2 9)]) = true := by decide
+example : endedBy (busy ++ [.inb (.publish 2 9), .writeFail true, .inb (.pubrel 9)]) = true := by decide
+example : endedBy (busy ++ [.writeFail true, .inb (.pubrel 9), .inb (.publish 0 9)]) = false := by decide
+example : endedBy (busy ++ [.inb (.publish 2 9), .inb (.pubrel 9), .writeFail true, .inb (.pubrel 9)]) = false := by
+  decide   -- the id was forgotten when the first PUBREL was answered
 
 end Mqtt.C11
